@@ -3,6 +3,7 @@
 Protocol lines (model `join`, lean/PygModel/JoinDriver.lean):
   (join join <x> <y> <lcols> <rcols> <mode> <spelling>)  ->  ok (T <result> <x after> <y after>)
   (join xor  <x> <y> <lcols> <rcols> <mode> <spelling>)  ->  ok (T <result> <x after> <y after>)
+  (join listby (L (T cell*)*))                           ->  ok (L (T <group key> (L <row ids>))*)     dictable._listby
 tables are dicts of equally long lists; <lcols>/<rcols> are N or a list of S:<hex name> | (fn id S:name) |
 (fn dbl S:name) | (fn const); <mode> is mN | ml0 | mlS | mlL | mr1 | mrS | mrR | (mf fst|snd|swap|lst);
 <spelling> = sp:<l><r>[o]: how the column lists are written in python (l list, t tuple, b bare item; o = use the
@@ -265,6 +266,15 @@ def generate(rng, tier):
             m2m += sh[1]
         yield dict(tag=tag, lines=[l])
     EXTRA.update(keyed_calls=keyed, with_duplicate_keys=dup, with_many_to_many_match=m2m)
+    # `_listby` itself: the ORDER of the groups and of the row ids inside them is what `pyg_base.sort` decides; join / xor
+    # results are compared as multisets, so only these lines sample the assumption "sort orders the (key, row id) pairs as
+    # the model's stable merge sort by cmp" directly
+    for _ in range(n // 10):
+        nk = rng.choice([1, 1, 2, 3])
+        pools = [rand_pool(rng) for _ in range(nk)]
+        rows = rng.choice([0, 1, 2, 3, 5, 8, 12])
+        keys = [[rng.choice(p) for p in pools] for _ in range(rows)]
+        yield dict(tag='listby%d' % nk, lines=['(join listby (L%s))' % ''.join(' (T%s)' % ''.join(' ' + cell(v) for v in k) for k in keys)])
     if tier != 'quick':
         ts = small_tables()
         for x in ts:
@@ -365,6 +375,14 @@ def call_impl(sx):
 
 def run_line(state, sx):
     op = sx[1]
+    if op == 'listby':
+        from pyg_base import dictable
+        keys = proto.dec(sx[2])
+        nk = len(keys[0]) if keys else 1
+        names = ['k%d' % c for c in range(nk)]
+        d = dictable({nm: [k[c] for k in keys] for c, nm in enumerate(names)})
+        ks, ids = guarded(lambda: tuple(d._listby(tuple(names))))
+        return 'ok (L%s)' % ''.join(' (T %s %s)' % (enc(k), enc(list(i))) for k, i in zip(ks, ids))
     if op not in ('join', 'xor'):
         return 'bad-op'
     res, x, y = call_impl(sx)
@@ -402,11 +420,16 @@ def compare(case, i, line, ir, mr):
     if not ir.startswith('ok'):
         return 'implementation reply %s' % ir[:120]
     a, b = proto.parse(ir[3:]), proto.parse(mr[3:])
+    if line.startswith('(join listby'):
+        # group order and row-id order are not part of the statement (multisets): a difference is a divergence
+        ga = [(proto.canon(g[1]), g[2]) for g in a[1:]]
+        gb = [(proto.canon(g[1]), g[2]) for g in b[1:]]
+        return None if ga == gb else ('divergence', '_listby groups %s, model %s' % (proto.render(a)[:200], proto.render(b)[:200]))
     if not (isinstance(a, list) and len(a) == 4 and isinstance(b, list) and len(b) == 4):
         return 'the call returned something that is not a table: %s (model: %s)' % (ir[:160], mr[:160])
     # operands unchanged: the model returns its inputs as given
     for k, name in ((2, 'left'), (3, 'right')):
-        if proto.canon(a[k]) != proto.canon(b[k]):
+        if proto.canon(a[k], numeric=False) != proto.canon(b[k], numeric=False):     # type-strict: an int must stay an int
             return 'the %s operand was changed by the call' % name
     ta, tb = table_rows(a[1]), table_rows(b[1])
     if ta is None:
@@ -424,6 +447,8 @@ def nontrivial(line, reply):
     if not reply.startswith('ok'):
         return False
     sx = proto.parse(line)
+    if sx[1] == 'listby':
+        return len(sx[2]) - 1 >= 2
     def nrows(t):
         return max([len(kv[1]) - 1 for kv in t[1:]] or [0])
     return max(nrows(sx[2]), nrows(sx[3])) >= 2
